@@ -30,6 +30,10 @@ PROPS = {
     "C16": dict(world="hook_world", level="fault_enumeration",
                 quick=dict(runs=30000, wall=240, chunk=500), thorough=dict(runs=1200000, wall=1500, chunk=4000),
                 assumptions=COMMON_ASSUME + ["hook death is injected as del + gc.collect() of the last reference held by the harness"]),
+    "C03": dict(world="neuron_world", level="exploration",
+                quick=dict(runs=20000, wall=300, chunk=200), thorough=dict(runs=700000, wall=1800, chunk=1000),
+                assumptions=COMMON_ASSUME + ["threshold decisions are judged only when the float64 prediction is farther than 1e-3 (scaled) from the threshold; others counted undecided",
+                                             "refractory periods that are integer multiples of a non-dyadic dt (other than 1x, 2x) are not generated: the float32 countdown may legitimately last one step longer"]),
     "C07": dict(world="reducer_world", level="exploration",
                 quick=dict(runs=20000, wall=240, chunk=500), thorough=dict(runs=800000, wall=1500, chunk=4000),
                 assumptions=COMMON_ASSUME + ["continuous values compared with |a-b| <= 2e-5 + 2e-4|b|; view times within max(4 tol, 0.05 dt) of the grid but outside tol are not judged"]),
